@@ -431,6 +431,31 @@ def run_history(variant, hist):
                 if t >= 0 and i < len(cfg["maps"]) and cfg["maps"][i][2] == 0 and got[t - 1] != pre[t - 1]:
                     if not any(tt == t and cfg["maps"][ii][2] != 0 for ii, tt in enumerate(cfg["links"]) if ii < len(cfg["maps"])):
                         vs.append(C.viol("unset-mapping-touches-target", {"type": "Amplifier", "history": True}, {"step": step}, case))
+    if not vs:
+        # ABSOLUTE oracle at the end of every history (the fresh-object differential cannot see a fault that a fresh object
+        # shares): over an ascending input sweep each linked target moves in the direction of ITS OWN window -- whatever
+        # the windows of other links, delivering or not, look like
+        try:
+            cfg = h_config(mc)
+            seen = {}
+            for v in (0, 4096, 8192, 16384, 24576, 32768):
+                mc.value = v
+                for i, t in enumerate(cfg["links"]):
+                    if t >= 0 and i < len(cfg["maps"]) and cfg["maps"][i][2] in (1, 7):
+                        a = amps[t - 1]
+                        seen.setdefault(i, []).append(a.volume if cfg["maps"][i][2] == 1 else a.fine_volume)
+            for i, vals in seen.items():
+                mn, mx, _c = cfg["maps"][i]
+                if sum(1 for ii, tt in enumerate(cfg["links"]) if tt == cfg["links"][i] and ii < len(cfg["maps"]) and cfg["maps"][ii][2] == _c) > 1:
+                    continue        # two links drive the same controller of one module: the later one wins
+                up = all(x <= y for x, y in zip(vals, vals[1:]))
+                down = all(x >= y for x, y in zip(vals, vals[1:]))
+                if (mn <= mx and not up) or (mn > mx and not down):
+                    vs.append(C.viol("not-monotone", {"variant": variant, "history": True, "window": "reversed" if mn > mx else "normal"},
+                                     {"link": i, "window": [mn, mx], "delivered": vals, "config": cfg}, case))
+                    break
+        except Exception as e:
+            vs.append(C.viol("delivery-raises", {"variant": variant, "exc": type(e).__name__, "at": "final-sweep"}, {}, case))
     return vs
 
 
